@@ -38,6 +38,8 @@ func runC06(p *core.Program, r *core.Report) {
 	// R7: effective tags are what the tag extractor makes of the comment lines: its key/value split is part of
 	// "an effective gengo:<name> tag decides"
 	chainRules(p, r, "R7", "C12", []string{"C12.R4"}, "tag lines are classified once and split at the first '=' or space")
+	// R8: the declaration's own tags are the tags of the doc comment Package.Doc attributes to it
+	chainRules(p, r, "R8", "C12", []string{"C12.R1", "C12.R2", "C12.R3"}, "the doc comment of a declaration is found and attributed to it")
 }
 
 func c06R1(p *core.Program, r *core.Report) {
